@@ -31,7 +31,7 @@ def install(I):
     I.models.update(MODELS)
 
 
-NOSTOP = {'io.Copy'}      # modelled only for some argument types; the SSA must stay available
+NOSTOP = {'io.Copy', 'strconv.Atoi'}      # modelled only for some argument types; the SSA must stay available
 
 
 def stop_list():
@@ -934,6 +934,68 @@ def _strconv_formatuint(I, st, args):
     return ('outcomes', [Outcome_(s, 'ret', v) for s, v in outs])
 
 
+# strconv.Atoi on a string of at most 18 bytes (the function's own fast path: no overflow is possible): one case
+# split - well-formed or not - instead of a symbolic branch per byte.  Longer strings run the real code.
+# Checked against the SSA of strconv.ParseInt by tools/selftest.py.
+@model('strconv.Atoi')
+def _strconv_atoi(I, st, args):
+    s = args[0]
+    n = len(s)
+    if n >= 19:
+        from .interp import FALLBACK
+        return FALLBACK
+    if n == 0:
+        return Tup((0, new_error(I, st, 'strconv.Atoi: parsing "": invalid syntax')))
+
+    def digits_ok(ds):
+        cs = []
+        for b in ds:
+            if is_sym(b):
+                cs.append(And(UGE(b, bvval(0x30, 8)), ULE(b, bvval(0x39, 8))))
+            elif not (0x30 <= b <= 0x39):
+                return False
+        return mk_and(cs)
+
+    def value(ds, neg):
+        if not any(is_sym(b) for b in ds):
+            v = int(bytes(ds))
+            return -v if neg else v
+        acc = bvval(0, 64)
+        for b in ds:
+            d = z3.ZeroExt(56, tobv(b, 8) - bvval(0x30, 8)) if is_sym(b) else bvval(b - 0x30, 64)
+            acc = acc * bvval(10, 64) + d
+        return -acc if neg else acc
+
+    def bad(st_):
+        return Tup((0, new_error(I, st_, 'strconv.Atoi: invalid syntax')))
+    alts = []
+    first = s[0]
+    # no sign
+    c_plain = digits_ok(s)
+    if c_plain is not False:
+        alts.append((c_plain, Tup((value(s, False), None))))
+    rest = [c_plain]
+    if n > 1:
+        for sign, neg in ((0x2b, False), (0x2d, True)):
+            if is_sym(first):
+                c0 = first == bvval(sign, 8)
+            else:
+                c0 = first == sign
+            if c0 is False:
+                continue
+            c = mk_and([c0, digits_ok(s[1:])])
+            if c is not False:
+                alts.append((c, Tup((value(s[1:], neg), None))))
+                rest.append(c)
+    c_bad = mk_and([mk_not(c) for c in rest])
+    if c_bad is not False:
+        alts.append((c_bad, bad))
+    if len(alts) == 1:
+        p = alts[0][1]
+        return p(st) if callable(p) else p
+    return ('alts', alts)
+
+
 from . import reflectmodel  # noqa: E402  (registers the reflect models)
 from . import osmodel  # noqa: E402  (registers the filesystem model)
 from . import pgpmodel  # noqa: E402  (idealised OpenPGP)
@@ -1236,3 +1298,36 @@ def _bytes_replace(I, st, args):
         else:
             outs.append(o)
     return ('outcomes', outs)
+
+
+# unicode case mappings (tables generated from the installed Go, see tools/unitables) ------------------------------
+def uni_map(name, r):
+    """unicode.<name>(r) for SimpleFold / ToLower / ToUpper: runs [lo, hi, stride, delta]; other runes map to themselves"""
+    runs = uni_ranges('map_' + name)
+    if not is_sym(r):
+        for lo, hi, stride, d in runs:
+            if lo <= r <= hi and (r - lo) % stride == 0:
+                return r + d
+        return r
+    w = r.size()
+    lim = (1 << w) - 1 if w < 32 else 0x10FFFF
+    out = r
+    for lo, hi, stride, d in reversed(runs):
+        if lo > lim:
+            continue
+        hi = min(hi, lim)
+        c = (r == bvval(lo, w)) if lo == hi else And(UGE(r, bvval(lo, w)), ULE(r, bvval(hi, w)))
+        if stride == 2 and lo != hi:
+            c = And(c, ((r - bvval(lo, w)) & bvval(1, w)) == bvval(0, w))
+        out = If(c, r + bvval(d & ((1 << w) - 1), w), out)
+    return out
+
+
+def _mk_unimap(name):
+    def m(I, st, args):
+        return uni_map(name, args[0])
+    return m
+
+
+for _n in ('SimpleFold', 'ToLower', 'ToUpper'):
+    MODELS['unicode.' + _n] = _mk_unimap(_n)
